@@ -34,7 +34,7 @@ type Payload struct {
 	Accepted bool   `json:"accepted"`
 }
 
-var payloads = []string{"", " 30m", " 8k", "\"", "\\", "'", "{", "}", ";", " x", "#", "$", "\\\"", "${", " \"x\"", "\n", ")", "\"x", "{}", "'x"}
+var payloads = []string{"", " 30m", " 8k", "\"", "\\", "'", "{", "}", ";", " x", "#", "$", "\\\"", "${", " \"x\"", "\n", ")", "\"x", "{}", "'x", ", ", ",", ", ,X-Accel-Redirect", " ,"}
 
 type leaf struct {
 	path string
